@@ -297,7 +297,8 @@ def tlc_must_fail(res, what, expect=None):
     if not res.violated:
         log(res.out[-3000:])
         raise NoVerdict(f"negative control {what}: TLC found no counterexample – model is vacuous")
-    if expect and res.violated != expect:
+    ok = (res.violated in expect) if isinstance(expect, (tuple, list, set, frozenset)) else (res.violated == expect)
+    if expect and not ok:
         raise NoVerdict(f"negative control {what}: expected {expect}, got {res.violated}")
 
 
